@@ -191,14 +191,44 @@ func r011(c *an.Ctx) {
 	if fn := mustFunc(c, rule, resPkg, "Collection", "Delete"); fn != nil {
 		name := "(*pkg/resource.Collection).Delete"
 		var effects []ssa.Instruction
+		isDel := func(in ssa.Instruction) bool {
+			cl, ok := in.(*ssa.Call)
+			return ok && an.CalleeName(cl) == "builtin delete"
+		}
 		an.Instrs(fn, func(in ssa.Instruction) {
-			if cl, ok := in.(*ssa.Call); ok && an.CalleeName(cl) == "builtin delete" {
+			if isDel(in) {
 				effects = append(effects, in)
 			}
 		})
 		for _, s := range an.CallsTo(fn, busSend) {
 			effects = append(effects, s)
 		}
+		// the locked step (re-check, delete, publish) delegated to a helper: its call is where the effects happen
+		an.Instrs(fn, func(in ssa.Instruction) {
+			cl, ok := in.(*ssa.Call)
+			if !ok {
+				return
+			}
+			h := an.TransparentCallee(cl)
+			if h == nil {
+				return
+			}
+			nDel, nSend := 0, 0
+			for _, g := range append([]*ssa.Function{h}, an.TransparentCalleesOf(h, 1)...) {
+				an.Instrs(g, func(x ssa.Instruction) {
+					if isDel(x) {
+						nDel++
+					}
+					if an.IsCallTo(x, busSend) {
+						nSend++
+					}
+				})
+			}
+			// one entry per effect inside, so that the number of obligations does not depend on where the code lives
+			for i := 0; i < nDel+nSend; i++ {
+				effects = append(effects, in)
+			}
+		})
 		for i, ef := range effects {
 			cons := fmt.Sprintf("%s|effect#%d guarded by preconditions", name, i+1)
 			var existsOK, checkOK, valueOK bool
@@ -215,7 +245,17 @@ func r011(c *an.Ctx) {
 			// expectedCheck: every dynamic call of the expectedCheck field: effect not reachable from its non-nil edge
 			checkOK, valueOK = true, true
 			nCheck, nVal := 0, 0
-			an.Instrs(fn, func(in ssa.Instruction) {
+			// reachesEffectVia: some path from the entry passes the first instruction of block b and goes on to the effect
+			// (the search runs through helpers and follows only the feasible branch on their constant / non-nil results)
+			reachesEffectVia := func(b *ssa.BasicBlock) bool {
+				if len(b.Instrs) == 0 {
+					return false
+				}
+				first := b.Instrs[0]
+				t, _ := an.PathQuery{Target: func(x ssa.Instruction) bool { return x == ef }, Through: func(x ssa.Instruction) bool { return x == first }}.From(fn, nil)
+				return t != nil
+			}
+			eachInstrDeep01(fn, func(in ssa.Instruction) {
 				cl, ok := in.(*ssa.Call)
 				if !ok {
 					return
@@ -233,8 +273,7 @@ func r011(c *an.Ctx) {
 										if isNil {
 											tested = true
 											failTarget := an.CondEdge{If: iff, Branch: !trueMeansNil}.Target()
-											t, _ := an.PathQuery{Target: func(x ssa.Instruction) bool { return x == ef }}.FromBlock(failTarget)
-											if t != nil {
+											if reachesEffectVia(failTarget) {
 												checkOK = false
 											}
 										}
@@ -253,8 +292,7 @@ func r011(c *an.Ctx) {
 					for _, u := range an.Referrers(cl) {
 						if iff, ok := u.(*ssa.If); ok {
 							tested = true
-							t, _ := an.PathQuery{Target: func(x ssa.Instruction) bool { return x == ef }}.FromBlock(iff.Block().Succs[1])
-							if t != nil {
+							if reachesEffectVia(iff.Block().Succs[1]) {
 								valueOK = false
 							}
 						}
@@ -276,14 +314,11 @@ func r011(c *an.Ctx) {
 					"a path reaches the effect without evaluating a configured "+pre+" (e.g. when another precondition is also set): the call succeeds although its precondition fails", an.BlockPath(c.Prog, by)...)
 			}
 		}
-		// no error after delete
-		for _, ef := range effects {
-			for _, r := range an.Returns(fn) {
-				if an.Reaches(ef, r) && !an.Reaches(r, ef) {
-					if _, isCall := ef.(*ssa.Call); isCall && an.IsCallTo(ef, "builtin delete") {
-						c.Check(provablyNilAt(r.Results[len(r.Results)-1], r), rule, name+"|no error after delete", r.Pos(), "nil error after the delete", "Delete can return an error after removing the item")
-					}
-				}
+		// no error after delete: a return that lies on a path through the map delete hands back a nil error
+		for _, r := range an.Returns(fn) {
+			isR := func(x ssa.Instruction) bool { return x == ssa.Instruction(r) }
+			if t, _ := (an.PathQuery{Target: isR, Through: isDel}).From(fn, nil); t != nil {
+				c.Check(provablyNilAt(r.Results[len(r.Results)-1], r), rule, name+"|no error after delete", r.Pos(), "nil error after the delete", "Delete can return an error after removing the item")
 			}
 		}
 	}
